@@ -171,6 +171,26 @@ def run_tables(case, res):
     str(a)
     if safe_hash(a) != h0:
         res.violate("C17|Table|hash-changed-by-render", "hash changed after rendering", a=da)
+    if da[2] is None:
+        # a table derived by a builder call from an already hashed / rendered receiver equals (and hashes like) the
+        # table constructed directly
+        base = mk_table(da)
+        hash(base), str(base), base in {base}
+        derived = base.as_("x")
+        direct = mk_table([da[0], da[1], "x", da[3], da[4]])
+        res.transitions += 2
+        if not (derived == direct) or not (direct == derived):
+            res.violate("C17|Table|derived-not-equal-direct", "t.as_('x') is not equal to Table(.., alias='x')", a=da)
+        elif safe_hash(derived) != safe_hash(direct) or (derived in {direct}) is not True:
+            res.violate("C17|Table|derived-hash-differs", "t.as_('x') == Table(.., alias='x') but hash / set membership differ "
+                        "(the receiver had been hashed before the builder call)", a=da)
+        if da[3] == "none":
+            b2 = mk_table(da)
+            hash(b2)
+            dt = b2.for_(SystemTimeValue().as_of("2020-01-01"))
+            direct_t = mk_table([da[0], da[1], da[2], "for", da[4]])
+            if not (dt == direct_t) or safe_hash(dt) != safe_hash(direct_t):
+                res.violate("C17|Table|derived-hash-differs", "t.for_(..) differs from the directly built temporal table in ==/hash", a=da)
     twin = mk_table(da)
     if not (a == twin) or safe_hash(twin) != h0:
         res.violate("C17|Table|fresh-twin-differs", "an identically constructed table is not equal / hashes differently", a=da)
@@ -228,16 +248,28 @@ def run_others(case, res):
 
 # ---- fields_() / tables_ ----------------------------------------------------------------------------------------
 
-TKEYS = {"A": ("a", None), "B": ("b", None), "C": ("c", None), "A2": ("a", "a2"), "Acopy": ("a", None)}
+# (name, alias, schema, kind)
+TKEYS = {"A": ("a", None, None, "T"), "B": ("b", None, None, "T"), "C": ("c", None, None, "T"), "A2": ("a", "a2", None, "T"),
+         "Acopy": ("a", None, None, "T"), "A_s1": ("a", None, "s1", "T"), "A_s2": ("a", None, "s2", "T"),
+         "X_as_a": ("x", "a", None, "T"), "AQ_a": ("a", "a", None, "AQ")}
 
 
 def mk_t(key):
-    name, alias = TKEYS[key]
-    return Table(name, alias=alias)
+    name, alias, schema, kind = TKEYS[key]
+    if kind == "AQ":
+        return AliasedQuery(name)
+    return Table(name, alias=alias, schema=schema)
 
 
 def tkey(key):
     return TKEYS[key]
+
+
+def ident(t):
+    if isinstance(t, AliasedQuery):
+        return (t.name, t.alias, None, "AQ")
+    sch = t._schema._name if getattr(t, "_schema", None) is not None else None
+    return (t._table_name, t.alias, sch, "T")
 
 
 def expr_shapes():
@@ -264,7 +296,7 @@ def run_exprs(case, res):
     for name, n, build in expr_shapes():
         for combo in itertools.product(tkeys, repeat=n):
             for colc in itertools.product(cols, repeat=n):
-                if case["tier"] == "quick" and n == 3 and len(set(colc)) > 1 and len(set(combo)) > 2:
+                if n == 3 and (len(set(colc)) > 1 or (case["tier"] == "quick" and len(set(combo)) > 2 and combo[0] not in ("A", "A_s1"))):
                     continue
                 fields = [Field(colc[i], table=mk_t(combo[i])) for i in range(n)]
                 term = build(fields)
@@ -272,8 +304,9 @@ def run_exprs(case, res):
                 exp_f = {(tkey(combo[i]), colc[i]) for i in range(n)}
                 exp_t = {tkey(combo[i]) for i in range(n)}
                 try:
-                    got_f = {((f.table._table_name, f.table.alias), f.name) for f in term.fields_()}
-                    got_t = {(t._table_name, t.alias) for t in term.tables_}
+                    got_f = {(ident(f.table), f.name) for f in term.fields_()}
+                    got_t = {ident(t) for t in term.tables_ if not isinstance(t, AliasedQuery)} | {
+                        ident(f.table) for f in term.fields_() if isinstance(f.table, AliasedQuery)}
                 except Exception as e:
                     res.violate("C17|fields_|raises|%s" % name, "fields_()/tables_ raised %s" % type(e).__name__, shape=name, tables=combo, cols=colc)
                     continue
